@@ -14,7 +14,28 @@ import json, os, re
 FILES = ["Base/Prelude.v", "Gen/NondetSites.v", "Model/Determinism.v", "Model/C01Check.v", "Proofs/Determinism.v"]
 
 
+def build_trimpath(R):
+    """the child-process replica is a DIFFERENTLY BUILT binary of the same harness: go build -trimpath (source paths, runtime.Caller,
+    %v / %+v of wrapped errors, debug.BuildInfo differ from the in-process replicas).  Incremental through the go build cache."""
+    import vlib
+    bindir = os.path.join(vlib.HARNESS, "bin") if not vlib.ALT else os.path.join(vlib.WORK, "bin")
+    os.makedirs(bindir, exist_ok=True)
+    binp = os.path.join(bindir, "c01.trimpath")
+    extra = ["-modfile", os.path.join(vlib.WORK, "go.alt.mod")] if vlib.ALT else []
+    with vlib.Lock("gobuild-c01-trimpath"):
+        rc, o, dt = vlib.sh(["go", "build"] + extra + ["-trimpath", "-tags", "verif", "-o", binp, "./cmd/c01"], cwd=vlib.HARNESS, env=R.env, timeout=1200)
+    R.note("go build -trimpath c01 rc", rc, "%.1fs" % dt)
+    if rc != 0:
+        R.oblige("harness c01 builds with -trimpath (child-process replica)", False, o[-2000:])
+        return None
+    return binp
+
+
+CHILD = []
+
+
 def observe(R, n, seed=None, extra=()):
+    extra = list(extra) + CHILD
     env = {"VERIF_SEED": str(seed)} if seed is not None else None
     out = R.harness("c01", ["-n", n] + list(extra), env=env, outdir=os.path.join(R.work, "c01_%s" % (seed if seed is not None else "main")))
     if not out:
@@ -115,12 +136,13 @@ def run(R):
                   "audit verdicts (Harmless <reason>) of Properties/C01.v are human judgements, pinned per file+function+kind+expression+count and to the fingerprint of the owning function plus its same-package callees (cross-package callees are not fingerprinted)",
                   "replica harness harness/cmd/c01 + shared ABCI driver harness/abci (store digests, canonical tx results)",
                   "local-zone times are detected syntactically (time.Unix/Parse/Date/In/Local and zone-dependent renderings not forced by .UTC() in the same expression, in x/ app/ types/); a zone that travels through variables into a dependency's formatter is only observed through the child-process replica",
+                  "error-text sites are detected syntactically (fmt.Sprint*/Append* with an error argument or err.Error(), whose value goes into a field, literal, event attribute or Set*/Save* call); text that travels through a variable first is only observed through the differently built child replica",
                   "process-local state is detected syntactically: writes (assignment, index assignment, append, delete, Store/Delete/..., big.Int mutators) to package-level variables and to fields of hand-written application structs reached from a receiver or parameter, outside New*/Make*/Register*/init; state hidden behind interfaces, closures or dependencies is only observed through the replicas",
                   "no axioms: every theorem of Properties/C01.v is closed under the global context"]
     R.assume += ["PARTIAL: scheduling/host independence of the Go runtime, IAVL, baseapp and CometBFT is observed on k=3 replicas "
                  "(separate MemDB, different goroutines/OS threads, GC pressure, different wall-clock times; replica 1 additionally serves CheckTx new/recheck, "
                  "Simulate and every gRPC query method of every module between DeliverTx calls, replica 2 is restarted from its database mid-history, "
-                 "replica 3 is a re-executed child PROCESS in another host environment: local zone UTC+9 (TZ=Asia/Tokyo), other HOME/HOSTNAME/locale, GOMAXPROCS=1; "
+                 "replica 3 is a child PROCESS running a DIFFERENTLY BUILT binary (go build -trimpath) in another host environment: local zone UTC+9 (TZ=Asia/Tokyo), other HOME/HOSTNAME/locale, GOMAXPROCS=1; "
                  "the wall-clock stream (block times around the real now, every stored threshold on one real instant, probes at -1s/-1ns/0/+1ns/+1s) has a LATE replica executed after that instant; "
                  "the begin/end/init-genesis module order is read from 6 fresh application instances in this process and 3 in the child process and must be one), not proved",
                  "the application hash is modelled as an injective function of the committed store content",
@@ -144,6 +166,10 @@ def run(R):
                 if e.startswith("msg:"):
                     focus.append(e.split(".")[-1])
         focus = sorted(set(focus))[:12]
+    R.gobuild("c01")  # (also writes the alternate module file the -trimpath build needs)
+    tp = build_trimpath(R)
+    if tp:
+        CHILD[:] = ["-child-bin", tp]
     n = 20 if R.tier == "quick" else 300
     extra = ["-focus", ",".join(focus)] if focus else []
     if diag and diag.get("new_sites_feeding_a_selection"):
